@@ -340,7 +340,8 @@ fn exec_inner(line: &str) -> String {
                 "w" => true,
                 _ => return BAD.into(),
             };
-            crate::orc_d::transcript(fam, win, &b, &x).join(" | ")
+            // `absolutize` exists only with the `std` feature: not part of the cross-build comparison
+            crate::orc_d::transcript(fam, win, &b, &x).into_iter().filter(|l| !l.starts_with("absolutize ") && !l.starts_with("buf.absolutize ")).collect::<Vec<_>>().join(" | ")
         }
         ["comps", e, s] => {
             let b = h!(s);
